@@ -117,7 +117,9 @@ func textOrByteStringDeterministic(input []byte) (int, error) {
 		return 0, err
 	}
 
-	if (uintLen + int(stringLen)) >= len(input) {
+	// Compare as uint64 first: converting a declared length of 2^63 or more to int
+	// yields a negative number, which would pass the check below.
+	if stringLen > uint64(len(input)) || (uintLen+int(stringLen)) >= len(input) {
 		panic("Text or byte string's length cannot exceed the length of the input byte array.")
 	}
 
@@ -129,6 +131,12 @@ func arrayDeterministic(input []byte) (int, error) {
 	lenOfNumOfItems, numOfItems, err := unsignedIntegerDeterministic(input)
 	if err != nil {
 		return 0, err
+	}
+
+	// Every item takes at least one byte, so a larger count cannot be satisfied. Checking
+	// it here also keeps the conversion to int below from overflowing.
+	if numOfItems > uint64(len(input)) {
+		panic("Number of items on CBOR array is less than the number of items it claims.")
 	}
 
 	// Skip the starter byte and the bytes stating the amount of elements the array has.
@@ -159,6 +167,12 @@ func mapDeterministic(input []byte) (int, error) {
 	lenOfNumOfItemPairs, numOfItemPairs, err := unsignedIntegerDeterministic(input[0:])
 	if err != nil {
 		return 0, err
+	}
+
+	// Every item takes at least one byte, so a larger count cannot be satisfied. Checking
+	// it here also keeps int(numOfItemPairs)*2 below from overflowing.
+	if numOfItemPairs > uint64(len(input)) {
+		panic("Number of items on CBOR map is less than the number of items it claims.")
 	}
 
 	// Skip the starter byte and the bytes stating the amount of element pairs the map has.
